@@ -2677,6 +2677,20 @@ class VM:
             result = fn(this_val if this_val is not None else UNDEFINED, *args)
         else:
             result = fn(*args)
+        if isinstance(result, JSArray) and result._prototype is None:
+            # An array a native has made (map, slice, split, keys, ...) is an
+            # Array like any other: instanceof and getPrototypeOf find its
+            # prototype
+            proto = getattr(self.globals.get("Array"), "_prototype", None)
+            if isinstance(proto, JSObject):
+                # The global can be replaced by the script: the link never
+                # closes a chain
+                link = proto
+                while link is not None:
+                    if link is result:
+                        raise JSTypeError("Cyclic __proto__ value")
+                    link = link._prototype
+                result._prototype = proto
         return result if result is not None else UNDEFINED
 
     def _call_callback(
